@@ -158,6 +158,35 @@ def classes_of(full):
     return c
 
 
+TWINS = ("same-first-volume", "same-frequencies", "other-weights", "other-temperatures")
+
+
+def twin_of(full, kind):
+    """A second spectrum sharing part of `full` (arrays (ntv, nq, 3na)); None when the kind needs more volumes / q-points."""
+    f = {k: (np.array(v, copy=True) if isinstance(v, np.ndarray) else v) for k, v in full.items() if k != "_case"}
+    nu = np.array(f["nu"], dtype=float)
+    if kind == "same-first-volume":
+        if nu.shape[0] < 2:
+            return None
+        nu[1:] = nu[1:] * 1.37 + 11.0
+        nu[1:, 0, :3] = np.array(full["nu"], dtype=float)[1:, 0, :3]       # the Gamma-acoustic slots stay what they were
+        f["nu"] = nu
+        f["gam"] = np.array(f["gam"], dtype=float) * -0.5 + 0.9
+        f["g"] = np.array(f["g"], dtype=float)[::-1].copy() if nu.shape[0] > 1 else f["g"]
+    elif kind == "same-frequencies":
+        f["gam"] = 1.3 - np.array(f["gam"], dtype=float)
+        f["g"] = np.array(f["g"], dtype=float) * 0.5 - 1.0
+    elif kind == "other-weights":
+        w = [float(x) for x in f["weights"]]
+        if len(w) < 2:
+            return None
+        f["weights"] = [x * (1.0 + 0.5 * ((i * 7) % 3)) for i, x in enumerate(w)]
+    elif kind == "other-temperatures":
+        T = [float(x) for x in f["T"]]
+        f["T"] = [x * 1.25 + (3.0 if x > 0 else 0.0) for x in T]
+    return f
+
+
 def compact(s):
     out = {k: s[k] for k in ("nq", "na", "ntv", "T", "seed", "garbage", "weights", "V", "kind", "ei", "ej")}
     if len(out["T"]) > 8:
@@ -177,7 +206,24 @@ def sub_identity(ctx):
             if v.bucket.endswith("/lowT-overflow"):
                 raise PropertyViolation("C01/lowT-overflow", v.message, v.case)
             raise
-        ctx.case(compact(s), nontrivial(full), classes=classes_of(full))
+        cls = classes_of(full)
+        # a second calculation in the same process that shares part of the first one's input (same temperatures and array
+        # shapes; same frequencies at the first volume / at every volume / same everything but weights or temperatures):
+        # its contributions are still the derivatives of ITS free energy (nothing is remembered from the previous spectrum)
+        if s["seed"] % 2 == 0:
+            kind = TWINS[(s["seed"] // 2) % len(TWINS)]
+            full2 = twin_of(full, kind)
+            if full2 is not None:
+                prior = full["_case"]
+                full2["_case"] = dict(jsonable({k: v for k, v in full2.items() if k != "_case"}), _prior=prior)
+                try:
+                    oracle(ctx, full2)
+                except PropertyViolation as v:
+                    if v.bucket.endswith("/lowT-overflow"):
+                        raise PropertyViolation("C01/lowT-overflow", v.message, v.case)
+                    raise PropertyViolation(v.bucket + "/second-calculation:" + kind, v.message, v.case)
+                cls = cls + ["second-calculation:" + kind]
+        ctx.case(compact(s), nontrivial(full), classes=cls)
 
     ctx.run_given(body, cases(), max_examples=ctx.n(3000, 200000))
 
@@ -216,6 +262,16 @@ def replay(ctx, payload):
     for k in ("nu", "gam", "g", "pressures", "static_p", "cv"):
         full[k] = np.array(case[k], dtype=float)
     full["_case"] = case
+    prior = case.get("_prior")
+    if prior:                      # the calculation that ran before this one in the same process
+        first = dict(prior)
+        for k in ("nu", "gam", "g", "pressures", "static_p", "cv"):
+            first[k] = np.array(prior[k], dtype=float)
+        first["_case"] = prior
+        try:
+            oracle(ctx, first)
+        except PropertyViolation:
+            pass
     try:
         oracle(ctx, full)
     except PropertyViolation as v:
